@@ -567,6 +567,8 @@ fn angle_deg() -> BoxedStrategy<f32> {
         1 => (-8i32..=8).prop_map(|k| 45.0 * k as f32),
         1 => (-4i32..=4, -3i32..=3).prop_map(|(k, u)| nudge(90.0 * k as f32, u)),
         1 => (-4i32..=4, prop_oneof![Just(1e-3f32), Just(-1e-3f32), Just(0.1f32), Just(-0.1f32)]).prop_map(|(k, d)| 90.0 * k as f32 + d),
+        // tiny rotations (1e-7 .. 1e-4 rad off a multiple of 90 degrees): off-diagonal entries of 1e-7 .. 1e-4 relative
+        2 => (-2i32..=2, signed(log_uniform(-5.3, -2.3))).prop_map(|(k, d)| 90.0 * k as f32 + d),
         5 => -360.0f32..=360.0,
     ]
     .boxed()
